@@ -145,4 +145,75 @@ pub assume_specification<'a, P: core::str::pattern::Pattern>[ str::strip_suffix:
         Option::None => !ends_with(s@, pat_str_of(suffix)->0),
     });
 
+pub assume_specification<P: core::str::pattern::Pattern>[ str::ends_with::<P> ](s: &str, p: P) -> (r: bool)
+    where for<'b> <P as core::str::pattern::Pattern>::Searcher<'b>: core::str::pattern::ReverseSearcher<'b>,
+    ensures
+        pat_char_of(p) is Some ==> r == (s@.len() > 0 && s@.last() == pat_char_of(p)->0),
+        pat_str_of(p) is Some ==> r == ends_with(s@, pat_str_of(p)->0);
+pub assume_specification<P: core::str::pattern::Pattern>[ str::contains::<P> ](s: &str, p: P) -> (r: bool)
+    ensures pat_char_of(p) is Some ==> r == s@.contains(pat_char_of(p)->0);
+
+// ---- shims for provided Iterator methods (assume_specification cannot reach provided trait methods) ----
+// Iterator::all: true means the closure accepted every element; false means it rejected some element
+#[verifier::external_body]
+pub fn vx_iter_all<I: Iterator, F: FnMut(I::Item) -> bool>(it: I, f: F) -> (r: bool)
+    requires forall|x: I::Item| call_requires(f, (x,))
+    ensures
+        it.obeys_prophetic_iter_laws() && r ==> forall|k: int| 0 <= k < it.remaining().len() ==> call_ensures(f, (#[trigger] it.remaining()[k],), true),
+        it.obeys_prophetic_iter_laws() && !r ==> exists|k: int| 0 <= k < it.remaining().len() && call_ensures(f, (#[trigger] it.remaining()[k],), false),
+{ let mut it = it; it.all(f) }
+
+pub assume_specification<T, U, F: FnOnce(T) -> U>[ Option::<T>::map_or ](o: Option<T>, d: U, f: F) -> (r: U)
+    requires o is Some ==> call_requires(f, (o->0,))
+    ensures o is None ==> r == d, o is Some ==> call_ensures(f, (o->0,), r);
+
+// ---- Peekable (peekable() is a provided Iterator method: shim; peek() is inherent) ----
+#[verifier::external_type_specification]
+#[verifier::external_body]
+#[verifier::reject_recursive_types(I)]
+pub struct ExPeekable<I: Iterator>(core::iter::Peekable<I>);
+
+#[verifier::external_body]
+pub fn vx_peekable<I: Iterator>(it: I) -> (r: core::iter::Peekable<I>)
+    ensures
+        r.remaining() == it.remaining(),
+        it.obeys_prophetic_iter_laws() ==> r.obeys_prophetic_iter_laws(),
+        it.decrease() is Some ==> r.decrease() is Some,
+{ it.peekable() }
+
+pub assume_specification<'a, I: Iterator>[ core::iter::Peekable::<I>::peek ](it: &'a mut core::iter::Peekable<I>) -> (r: Option<&'a I::Item>)
+    ensures
+        (*final(it)).remaining() == (*old(it)).remaining(),
+        (*final(it)).obeys_prophetic_iter_laws() == (*old(it)).obeys_prophetic_iter_laws(),
+        (*final(it)).decrease() == (*old(it)).decrease(),
+        (*old(it)).obeys_prophetic_iter_laws() ==> ((r is Some) == ((*old(it)).remaining().len() > 0)),
+        (*old(it)).obeys_prophetic_iter_laws() && r is Some ==> *r->0 == (*old(it)).remaining()[0];
+
+// String::from(&str) copies the text
+pub broadcast axiom fn axiom_string_from_str_obeys<'a>()
+    ensures #[trigger] <String as vstd::std_specs::convert::FromSpec<&'a str>>::obeys_from_spec();
+pub broadcast axiom fn axiom_string_from_str<'a>(s: &'a str)
+    ensures (#[trigger] <String as vstd::std_specs::convert::FromSpec<&'a str>>::from_spec(s))@ == s@;
+pub broadcast group group_string_from_str { axiom_string_from_str_obeys, axiom_string_from_str }
+
+// str::trim_start_matches(&str): strips the pattern from the front as often as it occurs
+pub open spec fn trim_start_str(s: Seq<char>, p: Seq<char>) -> Seq<char>
+    decreases s.len()
+{
+    if p.len() > 0 && starts_with(s, p) { trim_start_str(s.skip(p.len() as int), p) } else { s }
+}
+pub proof fn lemma_trim_start_done(s: Seq<char>, p: Seq<char>)
+    requires p.len() > 0
+    ensures !starts_with(trim_start_str(s, p), p)
+    decreases s.len()
+{
+    if starts_with(s, p) { lemma_trim_start_done(s.skip(p.len() as int), p); }
+}
+pub assume_specification<'a, P: core::str::pattern::Pattern>[ str::trim_start_matches::<P> ](s: &'a str, p: P) -> (r: &'a str)
+    ensures pat_str_of(p) is Some ==> r@ == trim_start_str(s@, pat_str_of(p)->0);
+pub assume_specification<P: core::str::pattern::Pattern>[ str::starts_with::<P> ](s: &str, p: P) -> (r: bool)
+    ensures
+        pat_str_of(p) is Some ==> r == starts_with(s@, pat_str_of(p)->0),
+        pat_char_of(p) is Some ==> r == (s@.len() > 0 && s@[0] == pat_char_of(p)->0);
+
 } // verus!
